@@ -28,7 +28,7 @@ def plan_items(vec_plan, items, s):
 
 
 def mkjob(jid, fn, items_plan=None, plan_seed=1, policy="full", size=0, rseed=1, fail_at=-1, fail_kind="custom",
-          delay_us=0, round_delay_us=0, stream=None, timeout_ms=20000, tag="", qmode=None, mode="stub", log_reads=False):
+          delay_us=0, round_delay_us=0, stream=None, timeout_ms=5000, tag="", qmode=None, mode="stub", log_reads=False):
     s, sb, items, fast = KINDS[fn]
     ip = items_plan or [{"pass": s, "hist": flat(s), "qmode": "center"} for _ in range(15)]
     if qmode:
@@ -77,7 +77,7 @@ def run_and_validate(run, hz, jobs, meta, nproc=None, taskset=None, env=None, ti
     gid = []
     for j in jobs:
         r = rows.get(j["id"])
-        if r is None:
+        if r is None or r.get("skipped"):
             continue
         m = meta[j["id"]]
         groups.append(trace_events(j, r, m["cnt"], m["hist"]))
@@ -92,6 +92,9 @@ def run_and_validate(run, hz, jobs, meta, nproc=None, taskset=None, env=None, ti
     run.traces += len(groups) - len(rej_ids)
     run.evaluations += len(groups)
     confirmed = []
+    if len(rej_ids) > 6:
+        # confirm a handful; more of the same adds time, not information
+        rej_ids = rej_ids[:6]
     if rej_ids and confirm:
         again_jobs = [byid[i] for i in rej_ids]
         rows2, crashed2 = vlib.run_hz_jobs(hz, "workflow", again_jobs, nproc=min(len(again_jobs), nproc or vlib.NCPU), taskset=taskset, env=env, timeout=timeout)
@@ -103,7 +106,7 @@ def run_and_validate(run, hz, jobs, meta, nproc=None, taskset=None, env=None, ti
         ids2 = []
         for j in again_jobs:
             r2 = rows2.get(j["id"])
-            if r2 is None:
+            if r2 is None or r2.get("skipped"):
                 continue
             g2.append(trace_events(j, r2, meta[j["id"]]["cnt"], meta[j["id"]]["hist"]))
             ids2.append(j["id"])
@@ -125,3 +128,21 @@ def run_and_validate(run, hz, jobs, meta, nproc=None, taskset=None, env=None, ti
             facts.update({"fn": byid[i]["fn"], "rejected": rec["rejected_event"]["ev"], "tag": byid[i].get("tag", "")})
             run.violation(facts, rec)
     return rows, rej_ids
+
+
+# ---------------------------------------------------------------- SingleDetect helpers
+def mk_single(jid, num_byte, stream_seed=1, policy="full", size=0, rseed=1, fail_at=-1, fail_kind="custom", slen=-1, tag="", stream=None):
+    return {"id": jid, "fn": "SingleDetect", "mode": "real", "items": [], "planSeed": 0, "numByte": num_byte,
+            "reader": {"policy": policy, "size": size, "seed": rseed, "failAt": fail_at, "failKind": fail_kind, "delayUs": 0},
+            "stream": stream or {"kind": "seeded", "seed": stream_seed, "len": slen}, "timeoutMs": 20000, "roundDelayUs": 0, "tag": tag}
+
+
+def single_event(job, res, ref_verdict):
+    nb = job["numByte"]
+    fa = job["reader"]["failAt"]
+    slen = job["stream"].get("len", -1)
+    fault = (0 <= fa < nb) or (0 <= slen < nb)
+    return {"ev": "single", "numByte": nb, "fault": fault, "hang": bool(res.get("hang")), "panic": "panic" in res,
+            "verdict": bool(res.get("verdict", False)), "haserr": bool(res.get("haserr", False)),
+            "consumed": int(res.get("consumed", -1)), "maxreq": int(res.get("maxreq", -1)), "leak": int(res.get("leak", 0)),
+            "ref": bool(ref_verdict), "id": job["id"]}
